@@ -254,4 +254,6 @@ def obligations():  # noqa: F811
             + share("literal-text/", content()) + share("kind/", rule_kinds()) + share("operands/", __import__("tx.p_c14", fromlist=["x"]).data_filter_leaves_operands_alone())
             # a comparison has the value of the relation the source spells (shared with C02); the value of `target = F(..)` reaches the target
             # for every kind of target (shared with C05)
-            + share("relations/", __import__("tx.p_c02", fromlist=["x"]).relation_spellings()) + share("delivery/", __import__("tx.p_c05", fromlist=["x"]).direct_delivery()))
+            + share("relations/", __import__("tx.p_c02", fromlist=["x"]).relation_spellings()) + share("delivery/", __import__("tx.p_c05", fromlist=["x"]).direct_delivery())
+            # an expression over hoisted calls has its value only if every call is made before its result is read (shared with C05)
+            + share("order/", __import__("tx.p_c05", fromlist=["x"]).call_order_through_convert()))
